@@ -84,7 +84,26 @@ func truncB(b []byte, n int) []byte {
 }
 
 // hostile varint encodings
-var hostileVals = []int64{-1, -2, 0, 1, math.MinInt64, math.MaxInt64, math.MaxInt32, 1 << 31, 1 << 40, 1 << 62, -(1 << 31), -(1 << 40), 64, -65, 1 << 20, -(1 << 20), 1 << 24, 1 << 33}
+var hostileVals = func() []int64 {
+	v := []int64{-1, -2, 0, 1, math.MinInt64, math.MaxInt64, math.MaxInt32, 1 << 31, 1 << 40, 1 << 62, -(1 << 31), -(1 << 40), 64, -65, 1 << 20, -(1 << 20), 1 << 24, 1 << 33,
+		1 << 60, 1 << 61, 1<<61 + 1, 1<<62 + 1, 1<<62 + 3, -(1 << 61), -(1 << 62), math.MaxInt64 - 1, math.MinInt64 + 1}
+	// counts/lengths whose product with a small element width wraps around 2^64 or 2^63
+	for _, w := range []uint64{2, 3, 4, 5, 8, 12, 16, 24, 32} {
+		for _, base := range []uint64{1 << 63, 0} {
+			q := (base - 1) / w // base==0: (2^64-1)/w
+			if base != 0 {
+				q = base / w
+			}
+			for _, d := range []uint64{0, 1, 2} {
+				x := q + d
+				if x <= math.MaxInt64 {
+					v = append(v, int64(x), -int64(x))
+				}
+			}
+		}
+	}
+	return v
+}()
 
 func hostileEncodings() [][]byte {
 	var out [][]byte
@@ -699,9 +718,20 @@ func runC06(c *core.Ctx, i int) {
 		}
 		c.Shape(fmt.Sprintf("legal|%d", i%5))
 	case 7: // time / null wrappers and registered codecs with hostile lengths
-		ts := "2006-01-02T15:04:05.123456789+07:00"
 		rb := e.rb
 		for m := 0; m < nmut; m++ {
+			ts := genRFC3339(r)
+			if m%4 == 0 {
+				// a well-formed length prefix: the text itself reaches the parser
+				in := append(refavro.AppendLong(nil, int64(len(ts))), ts...)
+				if _, ok := e.call(c, "time.StringCodec.Read", "timestamp-text", in, true, 1, func() error {
+					var t avrotimeTime
+					rb.Reset(in)
+					return avrotime.StringCodec{}.Read(rb, unsafe.Pointer(&t))
+				}); !ok {
+					return
+				}
+			}
 			h := c06hostile[r.IntN(len(c06hostile))]
 			in := append(append([]byte{}, h...), ts...)
 			if r.IntN(3) == 0 {
